@@ -242,33 +242,36 @@ Fixpoint sync_loop (fuel : nat) (s : rstate) (sync2 : N) (offset : Z) : bool * N
 
 Definition ts_packet_size : nat := 188.
 
-(* func DecodeADTSHeader(r io.Reader) (header *ADTSHeader, offset int, err error) *)
+(* the part of DecodeADTSHeader after the sync search (syncFound, no accumulated error) *)
+Definition decode_after_sync (sync2 : N) (offset : Z) (s : rstate) : res (adts * Z) :=
+  let mpeg_id := N.land (N.shiftr sync2 3) 1 in
+  let layer := N.land (N.shiftr sync2 1) 3 in
+  let protection_absent := N.land sync2 1 in
+  if negb (layer =? 0) then Err
+  else
+    let hlen := if negb (protection_absent =? 1) then 9 else 7 in
+    let '(profile, s) := rd 2 s in
+    let ot := u8 (profile + 1) in
+    let '(sfi, s) := rd 4 s in
+    let '(_, s) := rd 1 s in
+    let '(chan, s) := rd 3 s in
+    let '(_, s) := rd 4 s in
+    let '(flen, s) := rd 13 s in
+    let plen := u16 (u16 flen + 65536 - hlen) in
+    let '(bf, s) := rd 11 s in
+    let '(nrb, s) := rd 2 s in
+    if negb (nrb =? 0) then Err
+    else
+      let s := if negb (protection_absent =? 1) then snd (rd 16 s) else s in
+      if rerr s then Err
+      else Ok (mkAdts mpeg_id ot (u8 sfi) (u8 chan) hlen plen (u16 bf), offset).
+
+(* func DecodeADTSHeader(r io.Reader) (header, offset int, err error) *)
 Definition decode_adts (data : list N) : res (adts * Z) :=
   let '(found, sync2, offset, s) := sync_loop ts_packet_size (rinit data) 0 0%Z in
   if rerr s then Err
   else if negb found then Err
-  else
-    let mpeg_id := N.land (N.shiftr sync2 3) 1 in
-    let layer := N.land (N.shiftr sync2 1) 3 in
-    let protection_absent := N.land sync2 1 in
-    if negb (layer =? 0) then Err
-    else
-      let hlen := if negb (protection_absent =? 1) then 9 else 7 in
-      let '(profile, s) := rd 2 s in
-      let ot := u8 (profile + 1) in
-      let '(sfi, s) := rd 4 s in
-      let '(_, s) := rd 1 s in
-      let '(chan, s) := rd 3 s in
-      let '(_, s) := rd 4 s in
-      let '(flen, s) := rd 13 s in
-      let plen := u16 (u16 flen + 65536 - hlen) in
-      let '(bf, s) := rd 11 s in
-      let '(nrb, s) := rd 2 s in
-      if negb (nrb =? 0) then Err
-      else
-        let s := if negb (protection_absent =? 1) then snd (rd 16 s) else s in
-        if rerr s then Err
-        else Ok (mkAdts mpeg_id ot (u8 sfi) (u8 chan) hlen plen (u16 bf), offset).
+  else decode_after_sync sync2 offset s.
 
 (* headers Encode can express: MPEG-4 id, no CRC, 2-bit profile, 4/3/13/11-bit fields *)
 Definition adts_canonical (h : adts) : bool :=
